@@ -110,6 +110,7 @@ EXPORT int wprintf_s(const wchar_t *restrict fmt, ...) {
 #error need wcsstr or wcschr
 #endif
 
+    errno = 0;
     va_start(ap, fmt);
     ret = vwprintf(fmt, ap);
     va_end(ap);
